@@ -401,14 +401,20 @@ func IDCard(errBuf *strings.Builder, validName, objName, fieldName string, tv re
 	errBuf.WriteString(GetJoinValidErrStr(objName, fieldName, tv.String(), ExplainEn, "it is not idcard"))
 }
 
+// parseTimeStrict 按 layout 严格解析: time.Parse 比较宽松(连续的空格等价于一个空格, 小时可以只有 1 位,
+// 秒后可以带小数), 所以要求解析结果按 layout 格式化后与输入完全一致
+func parseTimeStrict(layout, value string) bool {
+	t, err := time.Parse(layout, value)
+	return err == nil && t.Format(layout) == value
+}
+
 // Year 验证年
 func Year(errBuf *strings.Builder, validName, objName, fieldName string, tv reflect.Value) {
 	if err := CheckFieldIsStr(objName, fieldName, tv); err != nil {
 		errBuf.WriteString(err.Error())
 		return
 	}
-	_, err := time.Parse(GetTimeFmt(YearFmt), tv.String())
-	if err == nil {
+	if parseTimeStrict(GetTimeFmt(YearFmt), tv.String()) {
 		return
 	}
 
@@ -432,8 +438,7 @@ func Year2Month(errBuf *strings.Builder, validName, objName, fieldName string, t
 	if val != "" {
 		defaultDateSplit = strings.Trim(val, "'")
 	}
-	_, err := time.Parse(GetTimeFmt(YearFmt|MonthFmt, defaultDateSplit), tv.String())
-	if err == nil {
+	if parseTimeStrict(GetTimeFmt(YearFmt|MonthFmt, defaultDateSplit), tv.String()) {
 		return
 	}
 
@@ -456,8 +461,7 @@ func Date(errBuf *strings.Builder, validName, objName, fieldName string, tv refl
 	if val != "" {
 		defaultDateSplit = strings.Trim(val, "'")
 	}
-	_, err := time.Parse(GetTimeFmt(DateFmt, defaultDateSplit), tv.String())
-	if err == nil {
+	if parseTimeStrict(GetTimeFmt(DateFmt, defaultDateSplit), tv.String()) {
 		return
 	}
 
@@ -486,9 +490,7 @@ func Datetime(errBuf *strings.Builder, validName, objName, fieldName string, tv 
 		}
 	}
 	layout := GetTimeFmt(DateTimeFmt, defaultSplit...)
-	_, err := time.Parse(layout, tv.String())
-	// time.Parse 允许 1 位的小时和秒后的小数, 这里要求与格式等长, 如: 2006-01-02 15:04:05
-	if err == nil && len(tv.String()) == len(layout) {
+	if parseTimeStrict(layout, tv.String()) {
 		return
 	}
 
